@@ -97,19 +97,20 @@ func c15(c *hx.Ctx) {
 		h := bhash.NewHash(ty, stored)
 		var got []byte
 		var err error
-		p, _ := hx.Catch(func() { got, err = h.VerifyData(data) })
+		var p bool
 		desc := map[string]any{"kind": "verify", "class": class, "type": int32(ty), "stored": hx.Hex(stored), "data": hx.Hex(data)}
-		var o string
-		switch {
-		case p:
-			o = oPanic
-		case errors.Is(err, bhash.ErrHashMismatch):
-			o = oErr(12)
-		case err != nil:
-			o = oErr(10)
-		default:
-			o = oOk(hx.Nat(len(got)))
-		}
+		o := guarded(c, "VerifyData", desc, [][]byte{stored, data}, func() string {
+			p, _ = hx.Catch(func() { got, err = h.VerifyData(data) })
+			switch {
+			case p:
+				return oPanic
+			case errors.Is(err, bhash.ErrHashMismatch):
+				return oErr(12)
+			case err != nil:
+				return oErr(10)
+			}
+			return oOk(hx.Nat(len(got)))
+		})
 		c.Case(hx.App("HVerify", hx.Z(int64(ty)), sd, hx.Bytes(data), o), desc)
 		if p {
 			c.Failf("verifydata-panic", desc, "VerifyData panicked")
@@ -128,15 +129,18 @@ func c15(c *hx.Ctx) {
 		// Sum
 		var sum []byte
 		var serr error
-		p, _ = hx.Catch(func() { sum, serr = ty.Sum(data) })
-		switch {
-		case p:
-			o = oPanic
+		o = guarded(c, "Sum", desc, [][]byte{data}, func() string {
+			p, _ = hx.Catch(func() { sum, serr = ty.Sum(data) })
+			switch {
+			case p:
+				return oPanic
+			case serr != nil:
+				return oErr(10)
+			}
+			return oOk(hx.Nat(len(sum)) + " (* " + hx.Hex(sum) + " *)")
+		})
+		if p {
 			c.Failf("sum-panic", desc, "Sum panicked")
-		case serr != nil:
-			o = oErr(10)
-		default:
-			o = oOk(hx.Nat(len(sum)))
 		}
 		c.Case(hx.App("HSumLen", hx.Z(int64(ty)), hx.Bytes(data), o), desc)
 		if !p && (serr == nil) != known {
@@ -181,15 +185,20 @@ func c15(c *hx.Ctx) {
 			ty, dg, h = 0, nil, &bhash.Hash{}
 		}
 		var err error
-		p, _ := hx.Catch(func() { err = h.Validate() })
+		var p bool
 		desc := map[string]any{"kind": "validate", "type": int32(ty), "digest": hx.Hex(dg)}
 		c.Class("validate")
-		o := oOk("tt")
+		o := guarded(c, "Validate", desc, [][]byte{dg}, func() string {
+			p, _ = hx.Catch(func() { err = h.Validate() })
+			if p {
+				return oPanic
+			} else if err != nil {
+				return oErr(0)
+			}
+			return oOk("tt")
+		})
 		if p {
-			o = oPanic
 			c.Failf("validate-panic", desc, "Validate panicked")
-		} else if err != nil {
-			o = oErr(0)
 		}
 		c.Case(hx.App("HValidate", hx.Z(int64(ty)), hx.Bytes(dg), o), desc)
 		if p {
@@ -226,27 +235,34 @@ func c15(c *hx.Ctx) {
 		c.Class("encode")
 		bin := h.MarshalDigest()
 		c.Case(hx.App("HMarshal", hx.Z(int64(ty)), hx.Bytes(dg), hx.Bytes(bin)), desc)
-		back := &bhash.Hash{}
-		err := back.UnmarshalVT(bin)
-		o := oErr(20)
-		if err == nil {
-			o = oOk(pair(int32(back.GetHashType()), back.GetHash()))
-		}
+		var back *bhash.Hash
+		var err error
+		o := guarded(c, "Hash.UnmarshalVT", desc, [][]byte{bin, dg}, func() string {
+			back = &bhash.Hash{}
+			if err = back.UnmarshalVT(bin); err != nil {
+				return oErr(20)
+			}
+			return oOk(pair(int32(back.GetHashType()), back.GetHash()))
+		})
 		c.Case(hx.App("HUnmarshal", hx.Bytes(bin), o), desc)
 		if err != nil || back.GetHashType() != ty || !bytes.Equal(back.GetHash(), dg) || !back.CompareHash(h) {
 			c.Failf("binary-roundtrip", desc, "UnmarshalVT(MarshalVT(h)) = (%d, %x), %v", int32(back.GetHashType()), back.GetHash(), err)
 		}
 		s := h.MarshalString()
 		c.Case(hx.App("HString", hx.Z(int64(ty)), hx.Bytes(dg), hx.Str(s)), desc)
-		b2 := &bhash.Hash{}
+		var b2 *bhash.Hash
 		var perr error
-		p, _ := hx.Catch(func() { perr = b2.ParseFromB58(s) })
-		o = oErr(0)
-		if p {
-			o = oPanic
-		} else if perr == nil {
-			o = oOk(pair(int32(b2.GetHashType()), b2.GetHash()))
-		}
+		var p bool
+		o = guarded(c, "ParseFromB58", desc, nil, func() string {
+			b2 = &bhash.Hash{}
+			p, _ = hx.Catch(func() { perr = b2.ParseFromB58(s) })
+			if p {
+				return oPanic
+			} else if perr == nil {
+				return oOk(pair(int32(b2.GetHashType()), b2.GetHash()))
+			}
+			return oErr(0)
+		})
 		c.Case(hx.App("HParse", hx.Str(s), o), desc)
 		if p {
 			c.Failf("parsefromb58-panic", desc, "ParseFromB58 panicked")
@@ -270,15 +286,20 @@ func c15(c *hx.Ctx) {
 		pb, pc := randProto(c, ty, c.RandBytes([]int{0, 20, 32, 5}[c.Rng.Intn(4)]))
 		c.Class("decode-" + pc)
 		desc := map[string]any{"kind": "decode", "class": pc, "bytes": hx.Hex(pb)}
-		back := &bhash.Hash{}
-		var err error
-		p, _ := hx.Catch(func() { err = back.UnmarshalVT(pb) })
-		o := oErr(20)
+		var p bool
+		o := guarded(c, "Hash.UnmarshalVT", desc, [][]byte{pb}, func() string {
+			back := &bhash.Hash{}
+			var err error
+			p, _ = hx.Catch(func() { err = back.UnmarshalVT(pb) })
+			if p {
+				return oPanic
+			} else if err == nil {
+				return oOk(pair(int32(back.GetHashType()), back.GetHash()))
+			}
+			return oErr(20)
+		})
 		if p {
-			o = oPanic
 			c.Failf("unmarshal-panic", desc, "Hash.UnmarshalVT panicked")
-		} else if err == nil {
-			o = oOk(pair(int32(back.GetHashType()), back.GetHash()))
 		}
 		c.Case(hx.App("HUnmarshal", hx.Bytes(pb), o), desc)
 		var s string
